@@ -10,11 +10,12 @@
 //                                       coins with the same label share one address; /k: the coin is locked (LockCoin)
 //           u<t><sats>[/k]             unconfirmed coin received from outside (funding transaction in the mempool)
 //           w<t><sats>[/k]             unconfirmed coin the wallet sent to itself (wallet transaction in the mempool, trusted)
+//           x<t><sats>                 a confirmed coin of SOMEBODY ELSE (external key), to be supplied as an external preset input
 //           imm                        an immature coinbase paying the wallet
 //           depth=<n> minfee= fallback= discard= maxfee= apsfee= zc=<0|1> ufee= wfee= rbfdef=<0|1> consol=
 //   request: r<t|m|n><sats>[s]         recipient (m: a fresh address of this wallet, n: OP_RETURN data), s = subtract fee from amount
 //            fr=<sat/kvB> ov=1 cp=<n> ct=<t> cd=<t> pre=<i,j,..> other=<0|1> unsafe=1 mind=<n> aps=1 sign=<0|1> lt=<n> rbf=<0|1>
-//            ext=<t><sats>             an external (non-wallet) confirmed coin supplied as preset input with solving data
+//            ext=<i,j,..>              external (non-wallet) coins (setup kind x) supplied as preset inputs with txout + solving data
 //   bump:   fr=<sat/kvB> rm=<0|1> oci=<n> out=<spec,...> (spec: k<i> keep original output i, k<i>:<sats> same script new amount,
 //           n<t><sats> new output) state=<conf|desc|bumped|wdesc> (make the original unbumpable first)
 //   output: see print_* below; every list is in a canonical order.
@@ -212,7 +213,7 @@ struct Scenario : public TestChain100Setup {
             }
             CoinSpec c{};
             if (tok == "imm") { c.kind = 'i'; c.type = 'b'; c.amount = 0; coins.push_back(c); continue; }
-            if (tok.size() < 3 || !otype(tok[1]) || (tok[0] != 'c' && tok[0] != 'u' && tok[0] != 'w')) { setup_error = "badcoin"; continue; }
+            if (tok.size() < 3 || !otype(tok[1]) || (tok[0] != 'c' && tok[0] != 'u' && tok[0] != 'w' && tok[0] != 'x')) { setup_error = "badcoin"; continue; }
             c.kind = tok[0];
             c.type = tok[1];
             std::string rest = tok.substr(2);
@@ -227,7 +228,6 @@ struct Scenario : public TestChain100Setup {
         if (st.minfee) wallet->m_min_fee = CFeeRate(*st.minfee);
         if (st.fallback) wallet->m_fallback_fee = CFeeRate(*st.fallback);
         if (st.discard) wallet->m_discard_rate = CFeeRate(*st.discard);
-        if (st.maxfee) wallet->m_default_max_tx_fee = *st.maxfee;
         if (st.apsfee) wallet->m_max_aps_fee = *st.apsfee;
         if (st.consol) wallet->m_consolidate_feerate = CFeeRate(*st.consol);
         wallet->m_spend_zero_conf_change = st.zc;
@@ -253,6 +253,7 @@ struct Scenario : public TestChain100Setup {
         size_t nw = 0;
         for (size_t i = 0; i < coins.size(); ++i) {
             if (coins[i].kind == 'c') { outs.emplace_back(coins[i].amount, wallet_script(coins[i])); idx.push_back(i); }
+            if (coins[i].kind == 'x') { outs.emplace_back(coins[i].amount, ext_script(coins[i].type)); idx.push_back(i); }   // not the wallet's
             if (coins[i].kind == 'w') { wsum += coins[i].amount; ++nw; }
         }
         std::optional<COutPoint> src;
@@ -319,6 +320,7 @@ struct Scenario : public TestChain100Setup {
                 if (!m_node.mempool->exists(id)) setup_error = "wtx-not-in-mempool";
             }
         }
+        if (st.maxfee) wallet->m_default_max_tx_fee = *st.maxfee;   // after the scenario's own transaction
         // locks, names
         LOCK(wallet->cs_wallet);
         for (size_t i = 0; i < coins.size(); ++i) {
@@ -434,6 +436,18 @@ void parse_request(Scenario& sc, const std::vector<std::string>& toks, Request& 
                 rq.cc.Select(sc.coins[n].outpoint);
                 rq.preset.push_back(sc.coins[n].outpoint);
             }
+        } else if (k == "ext") {
+            for (const std::string& i : split(v, ',')) {
+                const size_t n = std::stoul(i);
+                if (n >= sc.coins.size() || sc.coins[n].outpoint.IsNull() || sc.coins[n].kind != 'x') { rq.error = "badext"; continue; }
+                const CScript spk = sc.ext_script(sc.coins[n].type);
+                rq.cc.Select(sc.coins[n].outpoint).SetTxOut(CTxOut(sc.coins[n].amount, spk));
+                const CPubKey pk = sc.extkey.GetPubKey();
+                rq.cc.m_external_provider.pubkeys[pk.GetID()] = pk;
+                const CScript wpkh = GetScriptForDestination(WitnessV0KeyHash(pk));
+                rq.cc.m_external_provider.scripts[CScriptID(wpkh)] = wpkh;
+                rq.preset.push_back(sc.coins[n].outpoint);
+            }
         } else rq.error = "badreqkey";
     }
 }
@@ -452,7 +466,10 @@ std::string print_tx(Scenario& sc, const CTransaction& tx, const CCoinControl* c
             isz = CalculateMaximumSignedInputSize(txo->GetTxOut(), sc.wallet.get(), cc);
         } else {
             LOCK(cs_main);
-            if (auto c = sc.m_node.chainman->ActiveChainstate().CoinsTip().GetCoin(in.prevout)) v = c->out.nValue;
+            if (auto c = sc.m_node.chainman->ActiveChainstate().CoinsTip().GetCoin(in.prevout)) {
+                v = c->out.nValue;
+                if (cc) isz = CalculateMaximumSignedInputSize(c->out, in.prevout, &cc->m_external_provider, sc.wallet->CanGrindR(), cc);
+            }
         }
         in_total += v;
         s += " " + sc.name_of(in.prevout) + ":" + std::to_string(v) + ":" + std::to_string(isz) + ":" + std::to_string(in.nSequence);
@@ -546,7 +563,7 @@ std::string wallet_digest(Scenario& sc)
         else if (auto* i = wtx.state<TxStateInactive>()) st = i->abandoned ? "A" : "I";
         else st = "U";
         std::string mv;
-        for (const auto& [k, v] : wtx.mapValue) mv += k + "=" + v + ";";
+        mv = (wtx.m_comment ? *wtx.m_comment : std::string("-")) + ";" + (wtx.m_comment_to ? *wtx.m_comment_to : std::string("-")) + ";" + std::to_string(wtx.m_messages.size());
         items.push_back(id.ToString() + ":" + st + ":" + (wtx.m_replaces_txid ? wtx.m_replaces_txid->ToString() : "-") + ":" +
                         (wtx.m_replaced_by_txid ? wtx.m_replaced_by_txid->ToString() : "-") + ":" + mv);
     }
@@ -660,7 +677,7 @@ std::string run_c56(Scenario& sc, const Orig& orig, const std::vector<std::strin
             c2.m_feerate = CFeeRate(20000);
             CTxDestination d;
             ExtractDestination(sc.ext_script('b'), d);
-            auto r2 = CreateTransaction(*sc.wallet, {CRecipient{d, 2000, true}}, std::nullopt, c2, true);
+            auto r2 = CreateTransaction(*sc.wallet, {CRecipient{d, otx.vout[mine->n].nValue, true}}, std::nullopt, c2, true);
             if (!r2) return "NA wdesc:" + slug(util::ErrorString(r2).original);
             sc.wallet->CommitTransaction(r2->tx, {}, {});
             sc.sync();
@@ -688,21 +705,83 @@ std::string run_c56(Scenario& sc, const Orig& orig, const std::vector<std::strin
                 " allmine=" + (AllInputsMine(*sc.wallet, otx) ? "1" : "0") +
                 " rm=" + (require_mine ? "1" : "0") +
                 " inpool=" + (sc.m_node.mempool->exists(oid) ? "1" : "0");
+        bool incoins = true;
+        {
+            LOCK(cs_main);
+            for (const CTxIn& in : otx.vin) if (!sc.m_node.chainman->ActiveChainstate().CoinsTip().HaveCoin(in.prevout)) incoins = false;
+        }
+        facts += std::string(" incoins=") + (incoins ? "1" : "0");
     }
     CAmount oin = 0;
-    const std::string otxs = print_tx(sc, otx, nullptr, oin);
+    std::string otxs = print_tx(sc, otx, nullptr, oin);
+    otxs.replace(otxs.find(" | OUT"), 6, " | OOUT");
+    // the feerate the replacement is asked to pay (explicit, or EstimateFeeRate's formula evaluated with the public pieces) and
+    // the change script CreateTransaction will be told to use / will pick: both only to parameterise the checker; the Gallina
+    // transcriptions of the same code are compared with them
+    CFeeRate nrate{0};
+    {
+        if (cc.m_feerate) nrate = *cc.m_feerate;
+        else {
+            CFeeRate fr(oin - [&] { CAmount o = 0; for (const auto& x : otx.vout) o += x.nValue; return o; }(), (int32_t)GetVirtualTransactionSize(otx));
+            fr += CFeeRate(1);
+            fr += std::max(sc.m_node.chain->relayIncrementalFee(), CFeeRate(WALLET_INCREMENTAL_RELAY_FEE));
+            nrate = std::max(fr, GetMinimumFeeRate(*sc.wallet, cc).fee_rate);
+        }
+    }
+    std::string chg;
+    {
+        LOCK(sc.wallet->cs_wallet);
+        const auto& txouts = new_outs.empty() ? otx.vout : new_outs;
+        std::optional<CScript> dest;
+        std::vector<CRecipient> rcp;
+        for (size_t i = 0; i < txouts.size(); ++i) {
+            CTxDestination d;
+            ExtractDestination(txouts[i].scriptPubKey, d);
+            if (oci ? *oci == i : OutputIsChange(*sc.wallet, txouts[i])) dest = txouts[i].scriptPubKey;
+            else rcp.push_back(CRecipient{d, txouts[i].nValue, false});
+        }
+        if (rcp.empty() && dest) {
+            CTxDestination d;
+            ExtractDestination(*dest, d);
+            rcp.push_back(CRecipient{d, 0, true});
+            dest.reset();
+        }
+        CScript cs;
+        if (dest) cs = *dest;
+        else {
+            const OutputType ctype = sc.wallet->TransactionChangeType(sc.wallet->m_default_change_type, rcp);
+            auto d = sc.wallet->GetNewChangeDestination(ctype);
+            if (d) cs = GetScriptForDestination(*d);
+        }
+        const CTxOut proto(0, cs);
+        int sp = CalculateMaximumSignedInputSize(proto, sc.wallet.get(), nullptr);
+        if (sp == -1) sp = DUMMY_NESTED_P2WPKH_INPUT_SIZE;
+        chg = " chgspend=" + std::to_string(sp) + " chgspk=" + vd::hex(cs) + " nrate=" + std::to_string(nrate.GetFeePerK());
+        if (cc.m_feerate) {
+            // the size and bump fee CheckFeeRate is given: the original's inputs (unsigned) with the outputs in force
+            CMutableTransaction temp{otx};
+            CCoinControl c3;
+            std::vector<COutPoint> ops;
+            for (auto& in : temp.vin) { in.scriptSig.clear(); in.scriptWitness.SetNull(); c3.Select(in.prevout); ops.push_back(in.prevout); }
+            temp.vout = txouts;
+            const int64_t msz = CalculateMaximumSignedTxSize(CTransaction(temp), sc.wallet.get(), &c3).vsize;
+            const auto cb = sc.m_node.chain->calculateCombinedBumpFee(ops, *cc.m_feerate);
+            chg += " cfsize=" + std::to_string(msz) + " cfbump=" + std::to_string(cb ? *cb : -1);
+        }
+    }
     const std::string before = wallet_digest(sc);
     std::vector<bilingual_str> errors;
     CAmount old_fee = 0, new_fee = 0;
     CMutableTransaction mtx;
     const feebumper::Result r = feebumper::CreateRateBumpTransaction(*sc.wallet, oid, cc, errors, old_fee, new_fee, mtx, require_mine, new_outs, oci);
     const std::string after = wallet_digest(sc);
-    std::string tail = facts + " wsame=" + (before == after ? "1" : "0") + " ovsize=" + std::to_string(GetVirtualTransactionSize(otx)) +
-                       " ofee=" + std::to_string(orig.fee) + " | O" + otxs + " | NEWOUTS" + outs_str(sc, new_outs) +
-                       " | OCI " + (oci ? std::to_string(*oci) : std::string("-")) + " | " + sc.print_coins() + " | " + sc.print_env();
+    const std::string headkv = facts + " wsame=" + (before == after ? "1" : "0") + " ovsize=" + std::to_string(GetVirtualTransactionSize(otx)) +
+                       " ofee=" + std::to_string(orig.fee);
+    std::string tail = " | O" + otxs + " | NEWOUTS" + outs_str(sc, new_outs) +
+                       " | OCI " + (oci ? std::to_string(*oci) : std::string("-")) + " | " + sc.print_coins() + " | " + sc.print_env() + chg;
     if (r != feebumper::Result::OK) {
         static const char* names[] = {"OK", "INVALID_ADDRESS_OR_KEY", "INVALID_REQUEST", "INVALID_PARAMETER", "WALLET_ERROR", "MISC_ERROR"};
-        return std::string("ERR ") + names[(int)r] + " " + (errors.empty() ? std::string("-") : slug(errors[0].original)) + tail;
+        return std::string("ERR ") + names[(int)r] + " " + (errors.empty() ? std::string("-") : slug(errors[0].original)) + headkv + tail;
     }
     // the replacement, signed, against the node's mempool (test accept: nothing is changed)
     CMutableTransaction signed_mtx = mtx;
@@ -733,9 +812,18 @@ std::string run_c56(Scenario& sc, const Orig& orig, const std::vector<std::strin
                     (sc.m_node.mempool->exists(oid) ? "1" : "0") + "," + (wtx.m_replaced_by_txid && *wtx.m_replaced_by_txid == nid ? "1" : "0") + "," +
                     (errs2.empty() ? "-" : slug(errs2[0].original));
     }
-    return "OK oldfee=" + std::to_string(old_fee) + " newfee=" + std::to_string(new_fee) + " vsize=" + std::to_string(GetVirtualTransactionSize(*ntx)) +
+    CAmount nbump = 0;
+    {
+        std::vector<COutPoint> ops;
+        for (const CTxIn& in : ntx->vin) ops.push_back(in.prevout);
+        CAmount ind = 0;
+        for (const auto& [op, b] : sc.m_node.chain->calculateIndividualBumpFees(ops, nrate)) ind += b;
+        const auto comb = sc.m_node.chain->calculateCombinedBumpFee(ops, nrate);
+        nbump = comb ? std::min(ind, *comb) : ind;
+    }
+    return "OK oldfee=" + std::to_string(old_fee) + " bump=" + std::to_string(nbump) + " newfee=" + std::to_string(new_fee) + " vsize=" + std::to_string(GetVirtualTransactionSize(*ntx)) +
            " mvs=" + std::to_string(mx.vsize) + " tma=" + tma + " replaces=" + (replaces ? "1" : "0") + " committed=" + committed +
-           " newin=" + std::to_string(nin) + " | " + ntxs + tail;
+           " newin=" + std::to_string(nin) + headkv + " | " + ntxs + tail;
 }
 } // namespace
 
